@@ -191,6 +191,8 @@ var readExpr = map[string]string{
 	// an object shared by all requests (captured by the handler closure), cloned per request; the clone's array
 	// properties are modified element-wise: neither the prototype nor other clones may change
 	"cap_clone": `c11_clone($cobj, $id)`,
+	// a service object shared by all requests whose class has __get: the request parks INSIDE __get('greeting')
+	"cap_magic": `c11_magic($csvc, $id)`,
 }
 
 func jsonMode(segs [][]string) bool {
@@ -219,8 +221,11 @@ func script(segs [][]string, gates bool, quiet bool, capt bool) string {
 	if gates {
 		sb.WriteString("function c11_iter($n, $id) { static $tbl = [\"a\" => \"1\", \"b\" => \"2\", \"c\" => \"3\"]; $s = \"\"; foreach ($tbl as $k => $v) { verif_gate($n, 50); $s = $s . $k . $v; } return ($s == \"a1b2c3\") ? $id : \"it\" . $s; }\n")
 	} else {
-		sb.WriteString("function c11_iter($n, $id) { static $tbl = [\"a\" => \"1\", \"b\" => \"2\", \"c\" => \"3\"]; $s = \"\"; foreach ($tbl as $k => $v) { $s = $s . $k . $v; } return ($s == \"a1b2c3\") ? $id : \"it\" . $s; }\n")
+		// free-running load: 1200 passes per read over a 6-entry table (two requests must ENTER a foreach at the same moment)
+		sb.WriteString("function c11_iter($n, $id) { static $tbl = [\"a\" => \"1\", \"b\" => \"2\", \"c\" => \"3\", \"d\" => \"4\", \"e\" => \"5\", \"f\" => \"6\"]; $bad = 0; for ($q = 0; $q < 1200; $q++) { $s = \"\"; foreach ($tbl as $k => $v) { $s = $s . $k . $v; } if ($s != \"a1b2c3d4e5f6\") { $bad = $bad + 1; } } return ($bad == 0) ? $id : \"it\" . $bad; }\n")
 	}
+	sb.WriteString("class C11Svc { public function __get($name) { verif_park(); return \"val-\" . $name; } }\n")
+	sb.WriteString("function c11_magic($svc, $id) { $v = $svc->greeting; if ($v === \"val-greeting\") { return $id; } return \"mg\" . $v; }\n")
 	sb.WriteString("class C11Proto { public $vars = [\"k\" => \"0\"]; public $list = [0]; public $name = \"proto\"; }\n")
 	sb.WriteString("function c11_clone($proto, $id) { $cl = clone $proto; $cl->list[] = $id; $cl->vars[\"k\"] = $id; $cl->name = $id; if (count($cl->list) == 2 && $cl->list[1] == $id && $cl->vars[\"k\"] == $id && count($proto->list) == 1 && $proto->vars[\"k\"] == \"0\" && $proto->name == \"proto\") { return $id; } return \"cl\" . count($cl->list) . \"/\" . count($proto->list) . \"/\" . $proto->vars[\"k\"]; }\n")
 	if gates {
@@ -233,8 +238,8 @@ func script(segs [][]string, gates bool, quiet bool, capt bool) string {
 	sb.WriteString("function c11_after($s, $m) { $p = strpos($s, $m); if ($p === false) { return \"?\"; } return substr($s, $p + strlen($m)); }\n")
 	sb.WriteString("function c11_bind($d, $id) { $want = (((int)$id) % 2 == 1) ? $id : \"dflt\"; if ($d->pid == $id && $d->id == $id && $d->opt == $want) { return $id; } return \"b\" . $d->pid . \"/\" . $d->opt; }\n")
 	if capt {
-		sb.WriteString("$carr = [0]; $cmap = [\"k\" => \"0\"]; $ccnt = 0; $cobj = new C11Proto();\n")
-		sb.WriteString("$hcap = function($r, $w) use ($carr, $cmap, $ccnt, $cobj) {\n  $capn = 0; $capc = 0;\n")
+		sb.WriteString("$carr = [0]; $cmap = [\"k\" => \"0\"]; $ccnt = 0; $cobj = new C11Proto(); $csvc = new C11Svc();\n")
+		sb.WriteString("$hcap = function($r, $w) use ($carr, $cmap, $ccnt, $cobj, $csvc) {\n  $capn = 0; $capc = 0;\n")
 	} else {
 		sb.WriteString("function h($r, $w) {\n")
 	}
@@ -310,6 +315,22 @@ func yieldFn(point string) {
 	<-g.release
 }
 
+// verif_park(): parks the request the scheduler has just released at an INNER gate (code 50: the stage is merely split,
+// nothing is reported to the model) — for code that does not know which request it serves (a magic method of a shared object)
+func parkFnFor(gs map[int]*gateState) func() int {
+	return func() int {
+		gmu.Lock()
+		g := gs[running+1]
+		gmu.Unlock()
+		if g == nil {
+			return 0
+		}
+		g.arrive <- 50
+		<-g.release
+		return 0
+	}
+}
+
 var routePath = "/h"
 
 func mkRequest(i int) *http.Request {
@@ -347,6 +368,9 @@ func mkHandler(c *Case, withGates bool, gs map[int]*gateState) (http.Handler, st
 	vm, p := vrun.NewVM()
 	vm.SetThrowControl(func(acl data.Control) {})
 	if ctl := vm.RegisterFunction("verif_gate", gateFnFor(gs)); ctl != nil {
+		return nil, "register: " + ctl.AsString()
+	}
+	if ctl := vm.RegisterFunction("verif_park", parkFnFor(gs)); ctl != nil {
 		return nil, "register: " + ctl.AsString()
 	}
 	src := script(c.Segs, withGates, c.Quiet, c.Cap && c.Route == "mux")
